@@ -128,3 +128,5 @@ func main() {
 		os.Exit(2)
 	}
 }
+
+func os_trace() bool { return os.Getenv("VERIF_TRACE") != "" }
